@@ -9,8 +9,9 @@ PROP = "C07"
 PROPS_V = "theories/Props/C07.v"
 THEOREMS = ["C07_roundtrip_refuted", "C07_roundtrip_outside_known", "C07_roundtrip_outside_known_example",
             "C07_known_classes_fail", "C07_tiers_agree_refuted", "C07_tiers_agree_outside_known",
-            "C07_zone_pointwise", "C07_compaction_fixpoint", "C07_string_retyped_characterised",
-            "C07_sink_agrees", "C07_projection", "C07_projection_example"]
+            "C07_zone_pointwise", "C07_zone_roundtrip", "C07_compaction_fixpoint", "C07_string_retyped_characterised",
+            "C07_projection", "C07_projection_example", "C07_return_mislabel_refuted",
+            "C07_memtable_flow_exact_outside_known"]
 RULE = ("function level: JSON texts / scalars / cell texts through the real STORE parser, ScalarValue::from / to_json, "
         "WalEntry serde round trip, EventBuilder and real column blocks (ColumnGroupBuilder -> decoder -> both "
         "materialisations -> values_to_scalar); engine level: one schema with every field type (string, int, u64, float, "
@@ -404,7 +405,7 @@ CFGS = [
 
 def engine_cases(rng, tier):
     out = []
-    n = 8 if tier == "quick" else 400
+    n = 6 if tier == "quick" else 400
     for h in range(n):
         cfg, mode = CFGS[h % len(CFGS)] if h < 8 else rng.choice(CFGS)
         cap = cfg["fill_factor"] * cfg["event_per_zone"]
@@ -455,6 +456,28 @@ def engine_cases(rng, tier):
         out.append({"kind": "engine", "cfg": cfg, "mode": mode, "events": events, "batches": batches, "plan": plan,
                     "show": f"engine cap={cfg['fill_factor']}x{cfg['event_per_zone']} {mode} batches={[len(b) for b in batches]} plan={plan}"})
     return out
+
+
+BENIGN = {"s": "plain", "s2": "x y", "os": "v", "os2": "w", "i": 1, "oi": 2, "u": 3, "ou": 4, "f": 1.5, "of": 2.5, "b": True, "ob": False,
+          "k": "aa", "d": 1700000000, "od": 1700000001, "dd": 1699920000, "odd": 1699920000}
+
+
+def hand_case(overrides, ret, show, cfg=None):
+    """A small hand-written history: one batch, read from memory and after FLUSH. overrides: list of {field: value | ABSENT}."""
+    events = []
+    for n, ov in enumerate(overrides):
+        vals = dict(BENIGN)
+        vals.update(ov)
+        vals["zid"] = n
+        send = {k: v for k, v in vals.items() if v is not ABSENT}
+        order = [f for f, _, _ in FIELDS]
+        ev = {"zid": n, "ctx": "c%d" % (n % 2),
+              "line": "STORE t FOR c%d PAYLOAD {%s}" % (n % 2, ", ".join(json.dumps(k) + ": " + json_text(send[k]) for k in order if k in send)),
+              "expc": {k: stored_canon(vals.get(k, ABSENT)) for k in order}}
+        events.append(ev)
+    return {"kind": "engine_corpus", "cfg": cfg or {"fill_factor": 2, "event_per_zone": 8}, "mode": "single", "events": events,
+            "batches": [list(range(len(events)))], "plan": {"wal_restart_first": False, "restart_end": False, "compact": False, "ret": ret, "short": True},
+            "show": show}
 
 
 def cases(rng, tier):
@@ -546,6 +569,8 @@ def run_history(c):
             observe("wal")
         flush(batches[0])
         observe("seg")
+        if plan.get("short"):
+            return res
         for k, b in enumerate(batches[1:]):
             store(b)
             if k == 0:
